@@ -3212,17 +3212,21 @@ class QuaternionArray(np.ndarray):
                          [ 0.17094453, -0.3723117 ,  0.54109885, -0.73442086],
                          [ 0.1862619 , -0.38421818,  0.5260265 , -0.73551276]])
         """
+        if not inplace:
+            original = np.copy(self.array)
         self.remove_jumps()
         interpolated_quaternions = np.copy(self.array)
-        nan_intervals = get_nan_intervals(self.array)
+        if not inplace:
+            self.array[:] = original        # Only the returned copy is free of jumps
+        nan_intervals = get_nan_intervals(interpolated_quaternions)
         if len(nan_intervals) == 0:
             if inplace:
                 return None
             return interpolated_quaternions
         for interval in nan_intervals:
             interpolated_quaternions[interval[0]:interval[1]+1] = slerp(
-                self.array[interval[0]-1],
-                self.array[interval[1]+1],
+                interpolated_quaternions[interval[0]-1],
+                interpolated_quaternions[interval[1]+1],
                 t_array=np.linspace(0, 1, interval[1]-interval[0]+3)[1:-1]
                 )
         if inplace:
